@@ -13,3 +13,15 @@ Iso8601/Ext.vos Iso8601/Ext.vok Iso8601/Ext.required_vos: Iso8601/Ext.v Base/GoI
 Generated/Iso8601Gen.vo Generated/Iso8601Gen.glob Generated/Iso8601Gen.v.beautified Generated/Iso8601Gen.required_vo: Generated/Iso8601Gen.v Base/GoInt.vo Iso8601/Ext.vo
 Generated/Iso8601Gen.vio: Generated/Iso8601Gen.v Base/GoInt.vio Iso8601/Ext.vio
 Generated/Iso8601Gen.vos Generated/Iso8601Gen.vok Generated/Iso8601Gen.required_vos: Generated/Iso8601Gen.v Base/GoInt.vos Iso8601/Ext.vos
+Extract/Extract.vo Extract/Extract.glob Extract/Extract.v.beautified Extract/Extract.required_vo: Extract/Extract.v Base/GoInt.vo Iso8601/Ext.vo Generated/Iso8601Gen.vo Iso8601/Spec.vo
+Extract/Extract.vio: Extract/Extract.v Base/GoInt.vio Iso8601/Ext.vio Generated/Iso8601Gen.vio Iso8601/Spec.vio
+Extract/Extract.vos Extract/Extract.vok Extract/Extract.required_vos: Extract/Extract.v Base/GoInt.vos Iso8601/Ext.vos Generated/Iso8601Gen.vos Iso8601/Spec.vos
+Iso8601/Spec.vo Iso8601/Spec.glob Iso8601/Spec.v.beautified Iso8601/Spec.required_vo: Iso8601/Spec.v Base/GoInt.vo Iso8601/Ext.vo Generated/Iso8601Gen.vo
+Iso8601/Spec.vio: Iso8601/Spec.v Base/GoInt.vio Iso8601/Ext.vio Generated/Iso8601Gen.vio
+Iso8601/Spec.vos Iso8601/Spec.vok Iso8601/Spec.required_vos: Iso8601/Spec.v Base/GoInt.vos Iso8601/Ext.vos Generated/Iso8601Gen.vos
+Iso8601/Proofs.vo Iso8601/Proofs.glob Iso8601/Proofs.v.beautified Iso8601/Proofs.required_vo: Iso8601/Proofs.v Base/GoInt.vo Base/Lanes.vo Base/LanesProofs.vo Iso8601/Ext.vo Generated/Iso8601Gen.vo Iso8601/Spec.vo
+Iso8601/Proofs.vio: Iso8601/Proofs.v Base/GoInt.vio Base/Lanes.vio Base/LanesProofs.vio Iso8601/Ext.vio Generated/Iso8601Gen.vio Iso8601/Spec.vio
+Iso8601/Proofs.vos Iso8601/Proofs.vok Iso8601/Proofs.required_vos: Iso8601/Proofs.v Base/GoInt.vos Base/Lanes.vos Base/LanesProofs.vos Iso8601/Ext.vos Generated/Iso8601Gen.vos Iso8601/Spec.vos
+Properties/C18.vo Properties/C18.glob Properties/C18.v.beautified Properties/C18.required_vo: Properties/C18.v Base/GoInt.vo Iso8601/Ext.vo Generated/Iso8601Gen.vo Iso8601/Spec.vo Iso8601/Proofs.vo
+Properties/C18.vio: Properties/C18.v Base/GoInt.vio Iso8601/Ext.vio Generated/Iso8601Gen.vio Iso8601/Spec.vio Iso8601/Proofs.vio
+Properties/C18.vos Properties/C18.vok Properties/C18.required_vos: Properties/C18.v Base/GoInt.vos Iso8601/Ext.vos Generated/Iso8601Gen.vos Iso8601/Spec.vos Iso8601/Proofs.vos
